@@ -56,6 +56,10 @@ TRICKY = ['%', '_', 'a%', 'x_y', '100%', 'a\\b', 'C:\\dir\\f', 'a+b', 'a.b', 'a(
           '$HOME', '$uid', '$$x', '$', '$type']
 
 
+PLAIN = ['get', 'put', 'max', 'bob', 'r', 'book', 'a.b', 'a+b', 'a(b', 'x*', 'b[1]', 'read write', 'a|b', 'ab', 'a?', 'a{2}',
+         'Get', 'a)b', 'a[b']
+
+
 def model_backend(kind, k):
     base = kind.split(':')[-1]
     if base in ('memory', 'redis-json', 'redis-pickle') or kind.startswith('enfold:') or kind.startswith('enfold-late-pop'):
@@ -74,8 +78,12 @@ def gen_case(rng):
         store = pick(rng, ['str', 'rule', 'mixed'])
     q = gen_inquiry(rng, dictish=None if k == 'KU' else False)
     if k != 'KU':
+        plain = k == 'KR' and rng.random() < 0.4      # values the model's regex engine covers (MongoDB >= 4.2 query model)
         for f in ('resource', 'action', 'subject'):
-            q[f] = pick(rng, TRICKY) if rng.random() < 0.5 else gen_str(rng)
+            if plain:
+                q[f] = pick(rng, PLAIN)
+            else:
+                q[f] = pick(rng, TRICKY) if rng.random() < 0.5 else gen_str(rng)
     pols = []
     uids = rng.sample(['a', 'b', 'c', 'd', 'e', 'f', 'g'], pick(rng, [1, 2, 3, 4, 5]))
     for u in uids:
